@@ -376,8 +376,14 @@ func (g *c17Gen) template() string {
 	default:
 		t = g.array(3)
 	}
-	// malformed stream: wrong arity, delimiters that are empty / dynamic, text around the statement
-	switch r.Intn(25) {
+	// malformed stream: wrong arity, delimiters that are empty / dynamic, text around the statement.
+	// (@for templates only get the arity/context mutations: rewriting their condition can make a loop
+	// whose values grow for a million rounds, which exhausts memory in the real code as well.)
+	mut := r.Intn(25)
+	if strings.Contains(t, "@for") && mut != 1 && mut != 2 {
+		mut = 24
+	}
+	switch mut {
 	case 0:
 		t = strings.Replace(t, " ", " x ", 1)
 	case 1:
@@ -441,10 +447,24 @@ func c17GenCases(r *Rand, tier string) []string {
 		n, nSplit, nConc = 60000, 20000, 600
 	}
 	var out []string
+	// every run to the iteration cap costs the model about two seconds: keep them few
+	infBudget := 3
+	if tier == "thorough" {
+		infBudget = 10
+	}
 	for i := 0; i < n; i++ {
 		t := g.template()
 		elems, keys := g.context()
-		out = append(out, ExprCase(i%2 == 1, t, elems, keys))
+		line := ExprCase(i%2 == 1, t, elems, keys)
+		if strings.Contains(t, "@range") && (strings.Contains(t, "92233720368547758") || strings.Contains(t, "4611686018427387904")) {
+			if strings.Contains(c17Run(strings.Fields(line)), "3c494e463e") { // "<INF>"
+				if infBudget == 0 {
+					continue
+				}
+				infBudget--
+			}
+		}
+		out = append(out, line)
 	}
 	// the splitter on its own: arbitrary bytes, delimiters of 1..4 bytes
 	for i := 0; i < nSplit; i++ {
